@@ -1,11 +1,11 @@
 #!/bin/sh
 # offline set-up after a fresh restore: build tools, regenerate tables, full .vo build, extract the model
 set -e
-cd /verif
+cd "$(dirname "$0")/.."
 export GOFLAGS=-mod=mod GOPROXY=off GOSUMDB=off GOTOOLCHAIN=local
 python3 - <<'PY'
-import sys
-sys.path.insert(0, '/verif/harness/py')
+import os, sys
+sys.path.insert(0, os.path.join(os.getcwd(), 'harness', 'py'))
 import core
 core.build_tools()
 core.gen_tables()
